@@ -23,14 +23,21 @@ Kind(dev) == IF StartsWith(dev, DevPrefix) THEN "sg"
 \*   exc     "" | "NotImplementedError"
 \*   opens   sequence of <<path, mode>> passed to open()
 \*   connects number of connect() calls; url / ctx given to the iSCSI binding
-Expect(cfg, dev, rw, initiator) ==
+\* via: "init_device" (dispatch on the string) or the device class asked for directly ("SCSIDevice",
+\* "ISCSIDevice"): a class only ever handles its own kind of string.
+Routes == {"init_device", "SCSIDevice", "ISCSIDevice"}
+Refusal == [class |-> "", exc |-> "NotImplementedError", opens |-> <<>>, connects |-> 0, url |-> <<>>, ctx |-> <<>>]
+ExpectVia(via, cfg, dev, rw, initiator) ==
     LET k == Kind(dev) IN
-    IF k = "sg" /\ cfg.sgio THEN
+    IF via = "SCSIDevice" /\ k # "sg" THEN Refusal
+    ELSE IF via = "ISCSIDevice" /\ k # "iscsi" THEN Refusal
+    ELSE IF k = "sg" /\ cfg.sgio THEN
         [class |-> "SCSIDevice", exc |-> "", opens |-> << <<dev, IF rw THEN "w+b" ELSE "rb">> >>,
          connects |-> 0, url |-> <<>>, ctx |-> <<>>]
     ELSE IF k = "iscsi" /\ cfg.iscsi THEN
         [class |-> "ISCSIDevice", exc |-> "", opens |-> <<>>, connects |-> 1, url |-> dev, ctx |-> initiator]
-    ELSE [class |-> "", exc |-> "NotImplementedError", opens |-> <<>>, connects |-> 0, url |-> <<>>, ctx |-> <<>>]
+    ELSE Refusal
+Expect(cfg, dev, rw, initiator) == ExpectVia("init_device", cfg, dev, rw, initiator)
 
 Configs == [sgio : BOOLEAN, iscsi : BOOLEAN]
 
